@@ -7,12 +7,12 @@ Fixpoint be_bytes (n : nat) (v : N) : bytes :=
   match n with O => [] | S m => be_bytes m (v / 256) ++ [v mod 256] end.
 
 (* the deterministic payload of the script vocabulary: byte i of (seed, len) *)
-Fixpoint gen_aux (n : nat) (i base : N) : bytes :=
+Fixpoint gen_aux (n : nat) (i : N) (seed : N) : bytes :=
   match n with
   | O => []
-  | S m => ((base + i * 7 + (N.shiftr i 8) * 13) mod 256) :: gen_aux m (i + 1) base
+  | S m => (((N.shiftr seed (8 * (i mod 8))) mod 256 + i * 7 + (N.shiftr i 8) * 13) mod 256) :: gen_aux m (i + 1) seed
   end.
-Definition gen_data (seed len : N) : bytes := gen_aux (N.to_nat len) 0 ((seed * 131) mod 2^64).
+Definition gen_data (seed len : N) : bytes := gen_aux (N.to_nat len) 0 (seed mod 2^64).
 
 Definition str_bytes (l : list N) : bytes := le64 (N.of_nat (length l)) ++ l.
 
